@@ -133,6 +133,49 @@ def run(ctx):
                 r2, k2, rel2, bad2 = neg.roles(role2)
                 if not bad2 and r2 == {"parked": 1, "block": -1} and rel2 == "<=":
                     expiry = (r2, k2, neg)
+    if expiry is None:
+        # the sweep as an iterator chain: `pending.into_iter().filter(|(_, tx)| tx.block_number.map_or(true, |n| n + W <= block))
+        # .try_for_each(|(key, _)| self.remove_pending_tx(..))` - removed <=> the filter predicate, whose Some-arm is the window test
+        from guards import return_form
+        from terms import closures_in_term
+        for A in ct.calls():
+            if ct.is_cleanup(A.bb) or (A.method or "") not in ("try_for_each", "for_each"):
+                continue
+            body_cl = [F.fns.get(x) for x in ((A.func or {}).get("arg_cl") or [])]
+            if not any(g_ is not None and any((x.method or "") == "remove_pending_tx" for x in g_.calls()) for g_ in body_cl):
+                continue
+            recv = origin(ct, A.args[0])
+            fl = [x for x in calls_in(recv) if x[1].split("::")[-1] == "filter"]
+            if len(fl) != 1 or any(x[1].split("::")[-1] in ("map", "filter_map", "skip", "take", "rev", "step_by", "skip_while", "take_while") for x in calls_in(recv)):
+                continue
+            for cid in closures_in_term(fl[0][2][1]) if len(fl[0][2]) > 1 else []:
+                g1 = F.fns.get(cid)
+                if g1 is None:
+                    continue
+                for m_ in g1.calls():
+                    if g1.is_cleanup(m_.bb) or (m_.method or "") != "map_or" or len(m_.args) < 3:
+                        continue
+                    if not mentions(origin(g1, m_.args[0]), ".block_number"):
+                        continue
+                    dflt = origin(g1, m_.args[1])
+                    if not (dflt[0] == "const" and dflt[1] is True):
+                        continue
+                    for cid2 in ((m_.func or {}).get("arg_cl") or []):
+                        g2 = F.fns.get(cid2)
+                        if g2 is None:
+                            continue
+                        def role_cl(a):
+                            sa = show(a)
+                            if "param" in sa:
+                                return "parked"
+                            if "upvar" in sa:
+                                return "block"
+                            return None
+                        for fm2, line2 in return_form(g2):
+                            r2, k2, rel2, bad2 = fm2.roles(role_cl)
+                            if not bad2 and r2 == {"parked": 1, "block": -1} and rel2 == "<=":
+                                expiry = (r2, k2, fm2)
+                                role2 = role_cl
     R.ob(expiry is not None and expiry[1] == 10 and any("MAX_FUTURE_TRANSACTION_BLOCKS" in c for c in expiry[2].lin.consts), "GUARD", ct.where(),
          "GUARD|expiry|window", "a parked transaction expires iff `%s`; expected `parked - block + 10 <= 0`" % (expiry[2].text(role2) if expiry else "absent"),
          sample={"rule": "GUARD", "site": "clear_txpool", "row": expiry[2].text(role2) if expiry else None})
